@@ -103,7 +103,10 @@ Section M.
     cf_field : Inputs.FieldM F; cf_fallow_field : Inputs.FieldM F;
     cf_gw : GwU; cf_co2 : Inputs.CO2 F; cf_off_season : bool }.
 
-  Record Init := { i_par : DPar F; i_crops : Z -> CropFull F; i_clock : ClockP; i_weather : list (W F); i_state : DState F }.
+  (* [i_reset_ok k] = false: reset_initial_conditions raises at the start of season k (thermal-time crop: the weather from that
+     season's planting date on does not hold enough growing degree days, ...); the run stops when it gets there *)
+  Record Init := { i_par : DPar F; i_crops : Z -> CropFull F; i_clock : ClockP; i_weather : list (W F); i_state : DState F;
+                   i_reset_ok : Z -> bool }.
 
   (* ================================================================================================================= *)
   (* soil glue                                                                                                          *)
@@ -405,20 +408,24 @@ Section M.
     do co2 <- of_in co2r;
     (* the concentration and the crop of season k as reset_initial_conditions leaves them (computed once per season); season 0
        is reset only when the run starts before the first planting date *)
-    let season_of (k : Z) (p : Z) : F * CropInit.CropOut (F:=F) :=
-      if (k =? 0)%Z && (k0 =? 0)%Z then (conc0, o0)
+    let season_of (k : Z) (p : Z) : F * CropInit.CropOut (F:=F) * bool :=
+      if (k =? 0)%Z && (k0 =? 0)%Z then (conc0, o0, true)
       else
-        let c := match Inputs.co2_season co2 (year_of_day (s + p)) with Inputs.Ok c => c | Inputs.Err _ => conc0 end in
-        let o1 := with_fco2 o0 (fco2 c cref (u_bsted u) (u_bface u) (u_fsink u) (u_WP u)) in
-        if (u_CalendarType u =? 2)%Z then
-          match gdd_from u (s + p) wsel with
-          | Some gdd => match reseason_gdd u o1 gdd with Some o2 => (c, o2) | None => (c, o1) end
-          | None => (c, o1)
-          end
-        else (c, o1) in
+        match Inputs.co2_season co2 (year_of_day (s + p)) with
+        | Inputs.Err _ => (conc0, o0, false)              (* co2_data_processed.loc[year]: KeyError *)
+        | Inputs.Ok c =>
+          let o1 := with_fco2 o0 (fco2 c cref (u_bsted u) (u_bface u) (u_fsink u) (u_WP u)) in
+          if (u_CalendarType u =? 2)%Z then
+            match gdd_from u (s + p) wsel with
+            | Some gdd => match reseason_gdd u o1 gdd with Some o2 => (c, o2, true) | None => (c, o1, false) end
+            | None => (c, o1, false)
+            end
+          else (c, o1, true)
+        end in
     let seasons := map (fun kp => season_of (fst kp) (snd kp)) (combine (Calendar.zrange 0 (Z.of_nat (length l))) (map fst l)) in
-    let look (k : Z) : F * CropInit.CropOut (F:=F) :=
-      if (k <? 0)%Z then (conc0, o0) else nth (Z.to_nat k) seasons (conc0, o0) in
+    let look3 (k : Z) : F * CropInit.CropOut (F:=F) * bool :=
+      if (k <? 0)%Z then (conc0, o0, true) else nth (Z.to_nat k) seasons (conc0, o0, true) in
+    let look (k : Z) : F * CropInit.CropOut (F:=F) := fst (look3 k) in
     let par :=
       {| p_soil := soil; p_irr := irr; p_fallow_irr := fallow_irr s e;
          p_field := field_of 0 (cf_field cfg); p_fallow_field := field_of 1 (cf_fallow_field cfg);
@@ -429,7 +436,8 @@ Section M.
     (* read_model_initial_conditions: the initial water content, then the state object *)
     do th0 <- of_opt EIwc (SoilBuild.initial_wc (w_type iw) (w_method iw) rows zsoil (w_depth_layer iw) (w_value iw));
     do s0 <- of_opt EState (InitState.init_state par k0 (if gw_present gw then hd_error zgw else None) (fc_reset_of iw) th0);
-    IOk {| i_par := par; i_crops := crops; i_clock := clock; i_weather := weather_of (gw_present gw) wsel zgw; i_state := s0 |}.
+    IOk {| i_par := par; i_crops := crops; i_clock := clock; i_weather := weather_of (gw_present gw) wsel zgw; i_state := s0;
+           i_reset_ok := fun k => snd (look3 k) |}.
 
   (* ================================================================================================================= *)
   (* the whole simulation from the user's configuration: AquaCropModel(...).run_model(till_termination=True)            *)
@@ -437,7 +445,15 @@ Section M.
   Inductive RunRes :=
   | RInitErr (e : IErr)                  (* _initialize raises *)
   | RRaise (e : Clock.Err)               (* the clock raises (empty season list) *)
+  | RResetRaise (k : Z) (m : option (CModel (F:=F)))
+                                         (* reset_initial_conditions raises at the start of season k; [m]: the model's run, of which the
+                                            rows of the seasons before k are what the implementation wrote (when the run got that far
+                                            without another exception) *)
   | RRun (r : option (gres (CModel (F:=F)))).   (* the run: None = fuel exhausted *)
+
+  (* the first season whose reset raises *)
+  Definition first_bad_season (i : Init) : option Z :=
+    find (fun k => negb (i_reset_ok i k)) (Calendar.zrange 0 (n_seasons (i_clock i))).
 
   Definition run_config (cfg : Config) (fuel : nat) : RunRes :=
     match initialise cfg with
@@ -445,7 +461,19 @@ Section M.
     | IOk i =>
       match init_c (i_clock i) (i_state i) with
       | Raise e => RRaise e
-      | Ok m0 => RRun (run_till_c (i_par i) (i_crops i) (i_clock i) (i_weather i) fuel m0)
+      | Ok m0 =>
+        let r := run_till_c (i_par i) (i_crops i) (i_clock i) (i_weather i) fuel m0 in
+        match first_bad_season i with
+        | None => RRun r
+        | Some kb =>
+          (* the season counter reaches kb exactly when the step counter reaches the planting step of season kb *)
+          let entered (t : Z) := match nthZ (plant (i_clock i)) kb with Some p => (p <=? t)%Z | None => false end in
+          match r with
+          | Some (GOk m) => if (kb <=? season (st m))%Z then RResetRaise kb (Some m) else RRun r
+          | Some (Stopped t) => if entered t then RResetRaise kb None else RRun r
+          | _ => RRun r
+          end
+        end
       end
     end.
 End M.
